@@ -13,8 +13,13 @@ fn pick_order(rng: &mut StdRng) -> Vec<u8> {
     let o = shapes::ORDERS[rng.gen_range(0..shapes::N_ORDERS)];
     o.to_vec()
 }
+fn pick_comp(rng: &mut StdRng) -> usize {
+    // the first five components (distinct layouts) most of the time, the last four (second
+    // identifier byte) otherwise
+    if rng.gen_bool(0.7) { rng.gen_range(0..5) } else { rng.gen_range(5..comps::NC) }
+}
 fn vals(rng: &mut StdRng) -> Vec<u32> {
-    (0..5).map(|_| rng.gen_range(1..900)).collect()
+    (0..comps::NC).map(|_| rng.gen_range(1..900)).collect()
 }
 
 fn gen_op(rng: &mut StdRng, d: &Driver, profile: &str) -> Value {
@@ -96,15 +101,15 @@ fn gen_op(rng: &mut StdRng, d: &Driver, profile: &str) -> Value {
             }
             28..=43 => return json!({"op": "remove", "w": w, "e": target(rng)}),
             44..=45 => return json!({"op": "clear", "w": w}),
-            46..=55 => return json!({"op": "add", "w": w, "e": target(rng), "c": rng.gen_range(0..5), "v": rng.gen_range(1..900)}),
-            56..=63 => return json!({"op": "remc", "w": w, "e": target(rng), "c": rng.gen_range(0..5)}),
-            64..=65 => return json!({"op": "add2", "w": w, "e": target(rng), "c": rng.gen_range(0..5), "c2": rng.gen_range(0..5), "rm": [rng.gen_bool(0.5), rng.gen_bool(0.5)], "v": rng.gen_range(1..900)}),
+            46..=55 => return json!({"op": "add", "w": w, "e": target(rng), "c": pick_comp(rng), "v": rng.gen_range(1..900)}),
+            56..=63 => return json!({"op": "remc", "w": w, "e": target(rng), "c": pick_comp(rng)}),
+            64..=65 => return json!({"op": "add2", "w": w, "e": target(rng), "c": pick_comp(rng), "c2": pick_comp(rng), "rm": [rng.gen_bool(0.5), rng.gen_bool(0.5)], "v": rng.gen_range(1..900)}),
             66..=71 => {
                 let mode = ["all", "one", "entry", "entries"][rng.gen_range(0..4)];
                 if mode == "all" {
-                    return json!({"op": "qmut", "w": w, "mode": mode, "c": rng.gen_range(0..5), "v": rng.gen_range(1..50)});
+                    return json!({"op": "qmut", "w": w, "mode": mode, "c": pick_comp(rng), "v": rng.gen_range(1..50)});
                 }
-                return json!({"op": "qmut", "w": w, "mode": mode, "c": rng.gen_range(0..5), "v": rng.gen_range(1..50), "e": target(rng)});
+                return json!({"op": "qmut", "w": w, "mode": mode, "c": pick_comp(rng), "v": rng.gen_range(1..50), "e": target(rng)});
             }
             72..=74 => return json!({"op": "reserve", "w": w, "order": pick_order(rng), "n": rng.gen_range(0..5)}),
             75..=78 => return json!({"op": "shrink", "w": w}),
@@ -151,9 +156,9 @@ fn twin_op(rng: &mut StdRng, d: &Driver, w: usize) -> Value {
             json!({"op": "extend", "w": w, "order": pick_order(rng), "rows": rows, "extra": 0})
         }
         5..=6 => json!({"op": "remove", "w": w, "e": e}),
-        7 => json!({"op": "add", "w": w, "e": e, "c": rng.gen_range(0..5), "v": rng.gen_range(1..900)}),
-        8 => json!({"op": "remc", "w": w, "e": e, "c": rng.gen_range(0..5)}),
-        _ => json!({"op": "qmut", "w": w, "mode": "all", "c": rng.gen_range(0..5), "v": rng.gen_range(1..50)}),
+        7 => json!({"op": "add", "w": w, "e": e, "c": pick_comp(rng), "v": rng.gen_range(1..900)}),
+        8 => json!({"op": "remc", "w": w, "e": e, "c": pick_comp(rng)}),
+        _ => json!({"op": "qmut", "w": w, "mode": "all", "c": pick_comp(rng), "v": rng.gen_range(1..50)}),
     }
 }
 
@@ -277,7 +282,7 @@ fn main() {
             let out = BufWriter::new(File::create(&args[5]).unwrap());
             let mut d = Driver::new(Box::new(out));
             d.wal = Some(format!("{}.cur", &args[5]));
-            let v = [7u32, 11, 13, 17, 19];
+            let v = [7u32, 11, 13, 17, 19, 23, 29, 31, 37];
             let alphabet: Vec<Value> = vec![
                 json!({"op": "insert", "w": 1, "order": [2], "vals": v}),
                 json!({"op": "insert", "w": 1, "order": [3], "vals": v}),
@@ -291,6 +296,7 @@ fn main() {
                 json!({"op": "remove", "w": 1, "e": {"k": 3}}),
                 json!({"op": "add", "w": 1, "e": {"k": 1}, "c": 2, "v": 5}),
                 json!({"op": "add", "w": 1, "e": {"k": 2}, "c": 3, "v": 5}),
+                json!({"op": "add", "w": 1, "e": {"k": 1}, "c": 8, "v": 5}),
                 json!({"op": "remc", "w": 1, "e": {"k": 1}, "c": 2}),
                 json!({"op": "remc", "w": 1, "e": {"k": 2}, "c": 3}),
                 json!({"op": "clear", "w": 1}),
